@@ -142,7 +142,8 @@ theorem diff_absent : ∀ (e d : Expr), diff cfg v e = .ok d → absent v e = tr
         simp only [pure, Except.pure] at h
         injection h with h; subst h
         simp only [absent] at ha
-        simpa [evalR] using diff_absent c dc h1 ha
+        rw [evalR_cseRule]
+        exact diff_absent c dc h1 ha
   | .call f [], d, h, _ => by
       simp only [diff, pure, Except.pure] at h
       injection h with h; subst h; simp
